@@ -100,10 +100,11 @@ theorem splitKeys_sorted {V : Type} (p : Key) : ∀ (K : List (Key × V)), Sorte
 
 /-! ### encodeMap on a sorted list builds a valid tree -/
 
-/-- hypothesis on the value codec for one value: `enc` produces `pay v` and the leaf cell has room for it together with
-the longest label of an `n`-bit dictionary (label ≤ n + 9 + bitlength n bits is a coarse bound) -/
+/-- hypothesis on the value codec for one value: `enc` produces `pay v`, the leaf cell has room for it together with
+the longest label of an `n`-bit dictionary (label ≤ n + 9 + bitlength n bits is a coarse bound), and `dec` reads it back -/
 def Fits {V : Type} (C : Codec V) (pay : V → List Bool × List Cell) (n : Nat) (v : V) : Prop :=
-  C.enc v = .ok (pay v) ∧ (pay v).1.length + n + 9 + minBitsRequired n ≤ 1023 ∧ (pay v).2.length ≤ 4
+  C.enc v = .ok (pay v) ∧ (pay v).1.length + n + 9 + minBitsRequired n ≤ 1023 ∧ (pay v).2.length ≤ 4 ∧
+    DecodesValue C pay v
 
 theorem mkCell_ok (bits : List Bool) (refs : List Cell) (hb : bits.length ≤ 1023) (hr : refs.length ≤ 4) :
     mkCell bits refs = .ok (Cell.ordinary bits refs) := by
@@ -132,7 +133,7 @@ theorem encodeMap_sorted {V : Type} (C : Codec V) (pay : V → List Bool × List
   | f + 1, m, [], _, _, hne, _, _, _ => by simp at hne
   | f + 1, m, [(k, v)], hmn, _, _, hlen, _, hfit => by
     have hk : k.length = m := hlen (k, v) (by simp)
-    obtain ⟨he, hb, hr⟩ := hfit (k, v) (by simp)
+    obtain ⟨he, hb, hr, _⟩ := hfit (k, v) (by simp)
     refine ⟨.leaf (canonLbl k) v, by simp [HTree.Valid, hk], by simp [HTree.meaning], ?_⟩
     have hw := minBits_mono hmn
     have hl := canonLbl_enc_length k m
@@ -239,7 +240,7 @@ theorem encodeMap_sorted {V : Type} (C : Codec V) (pay : V → List Bool × List
     · have hcl : commonLabel (m : Int) k0 last.1 = .ok p := by
         rw [commonLabel_eq_lcp m k0 last.1 hk0 hkl hne, hp]
       have hsub : (m : Int) - (p.length : Int) - 1 = ((m - p.length - 1 : Nat) : Int) := by omega
-      obtain ⟨hfe, hfb, hfr⟩ := hfit (k0, v0) (by simp)
+      obtain ⟨hfe, hfb, hfr, _⟩ := hfit (k0, v0) (by simp)
       have hw := minBits_mono hmn
       have hl := canonLbl_enc_length p m
       simp only [encodeMap, encodeFork]
